@@ -47,7 +47,9 @@ def parseFloat (s : List Nat) : Option Rat :=
             else if e > 400 then (if eneg then some 0 else none)
             else
               let v := m * pow10 (if eneg then -e else e)
-              if v ≥ (2 : Rat) ^ 1024 then none else some v
+              if v ≥ (2 : Rat) ^ 1024 then none
+              else if v * (2 : Rat) ^ 1075 < 1 then some 0      -- below half the smallest subnormal
+              else some v
         else none
     v?.map (fun v => if neg then -v else v)
 
@@ -104,15 +106,17 @@ def bytesUnit (u : List Nat) : Option Nat :=
   (tbl.find? (fun p => ofString p.1 == u)).map (·.2)
 
 def parseBytes (s : List Nat) : Option Nat :=
-  let num := s.takeWhile (fun b => isDigit b || b == 46)
-  let extra := s.dropWhile (fun b => isDigit b || b == 46)
+  -- humanize.ParseBytes: the number is the leading run of digits, '.' and ',' with the commas removed
+  let num := (s.takeWhile (fun b => isDigit b || b == 46 || b == 44)).filter (· != 44)
+  let extra := s.dropWhile (fun b => isDigit b || b == 46 || b == 44)
   match scanDecimal num with
   | some (v, []) =>
     match bytesUnit extra with
     | some m =>
-      -- humanize.ParseBytes fails ("too large") from 2^64 on
+      -- humanize.ParseBytes fails ("too large") when the float64 product reaches 2^64, i.e. from
+      -- 2^64 - 1024 on (values above that round up to 2^64)
       let n := (v * (m : Rat)).floor.toNat
-      if n ≥ 18446744073709551616 then none else some n
+      if n ≥ 18446744073709550592 then none else some n
     | none => none
   | _ => none
 
